@@ -1,12 +1,15 @@
 package main
 
 import (
+	"fmt"
 	"go/ast"
 	"go/constant"
 	"go/token"
 	"go/types"
 	"sort"
 	"strings"
+
+	"golang.org/x/tools/go/cfg"
 )
 
 func init() {
@@ -24,7 +27,8 @@ func init() {
 		ID: "C48",
 		Explanation: "Decides writer/reader agreement of the typed configuration layer, not git's syntax: (config-section-coverage) the section names Config.marshal* functions write are the section names Config.unmarshal* functions read; " +
 			"(config-key-coverage) per section-level type (Config core/user/…, RemoteConfig, Branch, Submodule, URL) every key constant written by the marshal side is read by the unmarshal side of the same package. " +
-			"Not decided: low-level syntax agreement with git (gcfg), boolean/number interpretation.",
+			"(config-escape-tables) the low-level encoder formats with %s only (no Go-quoting verb), subsection names reach the output only through a replacer whose table is exactly {\" -> \\\", \\ -> \\\\}, and option values are written raw only on the " +
+			"false edge of the needs-quoting test (# ; \" \\ LF at least) and otherwise through a table of git-config value escapes. Not decided: the parser's (gcfg) agreement with git, boolean/number interpretation.",
 		Assumptions: []string{},
 		Run:         runC48,
 	})
@@ -32,7 +36,7 @@ func init() {
 		ID: "C17",
 		Explanation: "Decides interface-level and sentinel-level agreement between storage backends, not behavioural equality: (storer-coverage) memory.Storage, filesystem.Storage and the transactional storage satisfy storage.Storer, and the optional " +
 			"interfaces each satisfies are recorded and compared with the frozen table; (missing-data-sentinel) for each backend the lookup methods can return the agreed sentinel (ErrObjectNotFound for EncodedObject/HasEncodedObject/EncodedObjectSize, " +
-			"ErrReferenceNotFound for Reference) somewhere in their static call closure. Not decided: equality of results over call sequences (memory.CheckAndSetReference, for one, differs on a missing reference).",
+			"ErrReferenceNotFound for Reference) somewhere in their static call closure; (loose-miss-falls-back) DotGit.Ref never returns the error of reading the loose file: every failed loose read is answered by packedRef, whose miss is the sentinel. Not decided: equality of results over call sequences (memory.CheckAndSetReference, for one, differs on a missing reference).",
 		Assumptions: []string{},
 		Run:         runC17,
 	})
@@ -40,7 +44,9 @@ func init() {
 		ID: "C07",
 		Explanation: "Decides how the pack trailer and header are tied to what is written, not acceptance by git: (pack-hasher-tee) in packfile.NewEncoder the destination writer is only used inside io.MultiWriter together with the hasher, and the " +
 			"offset writer and zlib writer are built on that tee; footer writes the hasher's Sum; (header-count) the object count written in the header is the length of the slice that is then iterated; " +
-			"(base-before-offset) in entry, a delta's base is written before the delta's own offset is recorded. Not decided: delta selection, content equality, acceptance by git index-pack.",
+			"(base-before-offset) in entry, a delta's base is written before the delta's own offset is recorded; (request-deduplicated) the selector loads the requested hashes through a list built under a not-yet-seen map test " +
+			"(or a loop that skips seen hashes), so a hash requested twice yields one entry; (metadata-saved-before-clean) every CleanOriginal on an ObjectToPack is preceded on all paths by SaveOriginalMetadata or lies on the edge where the object is a stored " +
+			"plumbing.DeltaObject, so Hash/Type/Size stay defined for REF_DELTA headers. Not decided: delta selection, content equality, acceptance by git index-pack.",
 		Assumptions: []string{},
 		Run:         runC07,
 	})
@@ -158,6 +164,9 @@ func runC35(c *Ctx) {
 
 func runC48(c *Ctx) {
 	p := c.P
+	checkConfigEscapes(c, "config-escape-tables")
+	c.Floor("config-escape-tables", 3)
+	PackagesStateFree(c, "codec-state-free", "plumbing/format/config")
 	pk := p.Pkg("config")
 	if pk == nil {
 		c.Unresolved("config-key-coverage", "package config", 0, "not loaded")
@@ -224,6 +233,55 @@ func runC48(c *Ctx) {
 
 func runC17(c *Ctx) {
 	p := c.P
+	// loose-miss-falls-back: in DotGit.Ref whatever goes wrong reading the loose file (absent, a directory, empty after a
+	// refused update) the answer comes from packed-refs, whose miss is the ErrReferenceNotFound sentinel the other
+	// backends return: the loose read's own error never reaches the caller
+	const r0 = "loose-miss-falls-back"
+	if rf := c.MustFunc(r0, dotgitShort+".(*DotGit).Ref"); rf != nil {
+		c.Analysed(rf)
+		rinfo := rf.Pkg.TypesInfo
+		var looseErr types.Object
+		ast.Inspect(rf.Decl.Body, func(n ast.Node) bool {
+			as, ok := n.(*ast.AssignStmt)
+			if !ok || len(as.Rhs) != 1 || len(as.Lhs) != 2 {
+				return true
+			}
+			if call, ok := unparen(as.Rhs[0]).(*ast.CallExpr); ok {
+				if fn := Callee(rinfo, call); fn != nil && fn.Name() == "readReferenceFile" {
+					looseErr = objOf(rinfo, as.Lhs[1])
+				}
+			}
+			return true
+		})
+		if looseErr == nil {
+			c.Unresolved(r0, rf.Name()+":loose-read", rf.Decl.Pos(), "the call reading the loose reference file was not found")
+		} else {
+			escapes, packed := false, false
+			var at token.Pos
+			ast.Inspect(rf.Decl.Body, func(n ast.Node) bool {
+				r, ok := n.(*ast.ReturnStmt)
+				if !ok || len(r.Results) == 0 {
+					return true
+				}
+				last := r.Results[len(r.Results)-1]
+				if usesObj(rinfo, last, looseErr) {
+					escapes, at = true, r.Pos()
+				}
+				if call, ok := unparen(r.Results[0]).(*ast.CallExpr); ok {
+					if fn := Callee(rinfo, call); fn != nil && fn.Name() == "packedRef" {
+						packed = true
+					}
+				}
+				return true
+			})
+			if escapes {
+				c.Violate(r0, rf.Name(), at, "the error of reading the loose file is returned to the caller: a name that is absent but shadowed by a directory or an empty file no longer answers ErrReferenceNotFound (or the packed value) as the other backends do")
+			} else {
+				c.Check(packed, r0, rf.Name(), rf.Decl.Pos(), "every failed loose read is answered from packed-refs")
+			}
+		}
+	}
+	c.Floor(r0, 1)
 	const r1 = "storer-coverage"
 	storerT := p.lookupType("storage", "Storer")
 	if storerT == nil {
@@ -413,6 +471,163 @@ func runC07(c *Ctx) {
 		})
 		c.Check(lenArg != nil && ranged, r2, hd.Name(), hd.Decl.Pos(), "the header count is len() of the slice whose elements are then written")
 	}
+	// request-deduplicated: a hash requested twice yields one entry. Either the selector hands a list built under a
+	// "not seen yet" map test to the loader, or the loader's loop skips hashes it has seen.
+	const r2b = "request-deduplicated"
+	if otp := c.MustFunc(r2b, pfShort+".(*DeltaSelector).ObjectsToPack"); otp != nil {
+		c.Analysed(otp)
+		params := paramObjs(info, otp.Decl)
+		var hashes types.Object
+		if len(params) > 0 {
+			hashes = params[0]
+		}
+		inner := p.Func(pfShort + ".(*DeltaSelector).objectsToPack")
+		dedupLocal := func(fi *FuncInfo, obj types.Object) bool {
+			// every append to obj is inside `if _, ok := m[h]; !ok { … }` (or after a `continue` under `ok`) with h ranging over the request
+			okAll, n := true, 0
+			ast.Inspect(fi.Decl.Body, func(x ast.Node) bool {
+				as, isAs := x.(*ast.AssignStmt)
+				if !isAs || len(as.Lhs) != 1 || objOf(info, as.Lhs[0]) != obj || !nodeHasBuiltin(info, as, "append") {
+					return true
+				}
+				n++
+				guarded := false
+				path := pathTo(fi.Decl.Body, as)
+				for i := len(path) - 2; i >= 0; i-- {
+					ifs, isIf := path[i].(*ast.IfStmt)
+					if !isIf {
+						continue
+					}
+					if init, isInit := ifs.Init.(*ast.AssignStmt); isInit && len(init.Rhs) == 1 {
+						if ix, isIx := unparen(init.Rhs[0]).(*ast.IndexExpr); isIx {
+							if tv := info.Types[ix.X]; tv.Type != nil {
+								if _, isMap := tv.Type.Underlying().(*types.Map); isMap {
+									if un, isNot := unparen(ifs.Cond).(*ast.UnaryExpr); isNot && un.Op == token.NOT && path[i+1] == ast.Node(ifs.Body) {
+										guarded = true
+									}
+								}
+							}
+						}
+					}
+					break
+				}
+				if !guarded {
+					okAll = false
+				}
+				return true
+			})
+			return okAll && n > 0
+		}
+		loopSkipsSeen := func(fi *FuncInfo, over types.Object) bool {
+			found := false
+			ast.Inspect(fi.Decl.Body, func(x ast.Node) bool {
+				rs, isRange := x.(*ast.RangeStmt)
+				if !isRange || objOf(info, rs.X) != over {
+					return true
+				}
+				elem := objOf(info, rs.Value)
+				ast.Inspect(rs.Body, func(y ast.Node) bool {
+					br, isBr := y.(*ast.BranchStmt)
+					if isBr && br.Tok == token.CONTINUE && skipReasonKey(info, rs.Body, br, elem) {
+						found = true
+					}
+					return true
+				})
+				return true
+			})
+			return found
+		}
+		ok, how := false, ""
+		if inner != nil {
+			walkCalls(otp.Decl.Body, false, func(call *ast.CallExpr) {
+				if Callee(info, call) != inner.Obj || len(call.Args) == 0 {
+					return
+				}
+				arg := objOf(info, call.Args[0])
+				if arg != nil && arg != hashes && dedupLocal(otp, arg) {
+					ok, how = true, "the loader receives a list built under a not-yet-seen test"
+				}
+			})
+			if !ok {
+				ip := paramObjs(info, inner.Decl)
+				if len(ip) > 0 && loopSkipsSeen(inner, ip[0]) {
+					ok, how = true, "the loader's loop skips hashes it has already seen"
+				}
+			}
+		}
+		if !ok && hashes != nil && loopSkipsSeen(otp, hashes) {
+			ok, how = true, "the selector's loop skips hashes it has already seen"
+		}
+		c.Check(ok, r2b, otp.Name(), otp.Decl.Pos(), orStr(how, "a hash that is requested twice becomes two pack entries: git verify-pack rejects the pack (\"appears twice\") and the header count exceeds the number of distinct objects"))
+	}
+	if en := c.MustFunc(r2b, pfShort+".(*Encoder).Encode"); en != nil {
+		// the encoder obtains its entries from the selector only
+		n := 0
+		walkCalls(en.Decl.Body, false, func(call *ast.CallExpr) {
+			if fn := Callee(info, call); fn != nil && fn.Name() == "ObjectsToPack" {
+				n++
+			}
+		})
+		c.Check(n == 1, r2b, en.Name()+":entries-from-selector", en.Decl.Pos(), "Encode takes its entries from the object selector")
+	}
+	c.Floor(r2b, 2)
+
+	// metadata-saved-before-clean: ObjectToPack answers Hash/Type/Size from Original, from the saved metadata, or from a
+	// stored delta's own header. Dropping Original (CleanOriginal) is therefore preceded on every path by
+	// SaveOriginalMetadata, or happens on the edge where the object is a plumbing.DeltaObject.
+	const r2c = "metadata-saved-before-clean"
+	nClean := 0
+	for _, fi := range p.FuncsIn(pfShort) {
+		if fi.Decl.Body == nil || p.isTestFile(fi.Decl.Pos()) {
+			continue
+		}
+		isClean := func(call *ast.CallExpr) bool {
+			fn := Callee(info, call)
+			return fn != nil && fn.Name() == "CleanOriginal" && recvTypeName(fn) != nil && recvTypeName(fn).Name() == "ObjectToPack"
+		}
+		if nodeHasCall(fi.Decl.Body, true, isClean) == nil {
+			continue
+		}
+		f := p.FlowOf(fi)
+		c.Analysed(fi)
+		isSave := func(n ast.Node) bool {
+			return nodeHasCall(n, false, func(call *ast.CallExpr) bool {
+				fn := Callee(info, call)
+				return fn != nil && fn.Name() == "SaveOriginalMetadata"
+			}) != nil
+		}
+		for _, l := range f.Locs(func(n ast.Node) bool { return nodeHasCall(n, false, isClean) != nil }) {
+			nClean++
+			h := f.Search(SearchOpts{Starts: []Loc{f.Entry()}, Barrier: isSave,
+				Sink: func(n ast.Node) bool { return n == l.B.Nodes[l.Idx] },
+				BlockEdge: func(b *cfg.Block, i int) bool {
+					for _, fact := range f.EdgeFacts(b, i) {
+						if !fact.Truth {
+							continue
+						}
+						okObj := objOf(info, fact.Atom)
+						if okObj == nil {
+							continue
+						}
+						for _, n := range b.Nodes {
+							as, isAs := n.(*ast.AssignStmt)
+							if !isAs || len(as.Lhs) != 2 || len(as.Rhs) != 1 || objOf(info, as.Lhs[1]) != okObj {
+								continue
+							}
+							if ta, isTA := unparen(as.Rhs[0]).(*ast.TypeAssertExpr); isTA && ta.Type != nil {
+								if tv := info.Types[ta.Type]; tv.Type != nil && strings.HasSuffix(tv.Type.String(), "plumbing.DeltaObject") {
+									return true
+								}
+							}
+						}
+					}
+					return false
+				}})
+			key := fmt.Sprintf("%s->CleanOriginal#%d", fi.Name(), nClean)
+			c.Check(h == nil, r2c, key, l.B.Nodes[l.Idx].Pos(), orStr(ifStr(h != nil, "Original is dropped on a path without SaveOriginalMetadata and not for a stored delta: Hash/Type/Size of the entry are then undefined, and REF_DELTA headers name the wrong base"+hitLines(f, h)), "preceded by SaveOriginalMetadata, or the object is a stored delta"))
+		}
+	}
+	c.Floor(r2c, 2)
 	const r3 = "base-before-offset"
 	if en := c.MustFunc(r3, pfShort+".(*Encoder).entry"); en != nil {
 		f := p.FlowOf(en)
